@@ -32,6 +32,8 @@ type inScenario struct {
 	Listed []string   `json:"listed"`
 	Excl   []string   `json:"excl"`
 	Pass   []string   `json:"pass"`
+	Human  []string   `json:"human"` // applications tagged ~human
+	Hid    []string   `json:"hid"`   // applications whose endpoint is tagged ~hidden
 	View   string     `json:"view"` // plain | clustered | epa
 	Text   bool       `json:"text"`
 	Views  []inView   `json:"views"` // further views of the same project (generated in the same run)
@@ -55,8 +57,23 @@ func inRender(sc inScenario) string {
 	for _, c := range sc.Calls {
 		bySrc[c[0]] = append(bySrc[c[0]], c[1])
 	}
+	in := func(xs []string, x string) bool {
+		for _, y := range xs {
+			if y == x {
+				return true
+			}
+		}
+		return false
+	}
 	for _, a := range sc.Apps {
-		fmt.Fprintf(&b, "%s:\n    e:\n", a)
+		at, et := "", ""
+		if in(sc.Human, a) {
+			at = " [~human]"
+		}
+		if in(sc.Hid, a) {
+			et = " [~hidden]"
+		}
+		fmt.Fprintf(&b, "%s%s:\n    e%s:\n", a, at, et)
 		ts := bySrc[a]
 		if len(ts) == 0 {
 			b.WriteString("        ...\n")
@@ -252,7 +269,8 @@ func runInts(in, out string, _ []string) error {
 		tid := func(k int) int { return sc.ID*10 + k }
 		begin := func(k int) tr.Ev {
 			v := views[k]
-			return tr.Ev{"t": tid(k), "e": "begin", "scn": sc.ID, "viewno": k + 1, "calls": sc.Calls, "listed": v.Listed, "excl": v.Excl, "pass": v.Pass, "view": sc.View}
+			return tr.Ev{"t": tid(k), "e": "begin", "scn": sc.ID, "viewno": k + 1, "calls": sc.Calls, "listed": v.Listed, "excl": v.Excl, "pass": v.Pass, "view": sc.View,
+				"human": append([]string{}, sc.Human...), "hid": append([]string{}, sc.Hid...)}
 		}
 		b0 := begin(0)
 		if sc.Text {
